@@ -41,6 +41,7 @@ var Pool = []Pkg{
 	{"github.com/sirupsen/logrus", "logrus"},
 	{"github.com/kardianos/govendor/context", "context"}, // an element that merely ENDS in "vendor": not a vendor path
 	{"h.io/myvendor", "myvendor"},
+	{"example.com/tools/vendor", "vendor"}, // the LAST element is called vendor: still not a vendored path
 	{"root/vendor/g.com/vend", "vend"},
 	{"root/vendor/g.com/other", "other"},
 	{"m3/vendor/v.org/lib", "lib"},
